@@ -62,12 +62,13 @@ VARIABLES cfg,
           aret,                 \* App: result of a read() that has not returned yet (cfg.post), else -1
           freed,                \* ghost: ids the application has deleted
           stale,                \* ghost: U touched an object after the application freed it
+          spur,                 \* spurious wake-ups injected so far (at most cfg.spur)
           act                   \* ghost: thread of the last step
 
 vars == <<cfg, uf, oq, uRun, cRun, cfOpen, cfBad, ci, cur, ctmp, utmp, objCount, uncSize,
-          pc, blk, wk, tmp4, d, opi, fix, nread, delivered, aret, freed, stale, act>>
+          pc, blk, wk, tmp4, d, opi, fix, nread, delivered, aret, freed, stale, spur, act>>
 View == <<cfg, uf, oq, uRun, cRun, cfOpen, cfBad, ci, cur, ctmp, utmp, objCount, uncSize,
-          pc, blk, wk, tmp4, d, opi, fix, nread, delivered, aret, freed, stale>>
+          pc, blk, wk, tmp4, d, opi, fix, nread, delivered, aret, freed, stale, spur>>
 
 Threads == {"A", "U", "C"}
 StatSize == 144           \* FileStatistics::statisticsSize
@@ -86,12 +87,13 @@ Init == /\ cfg \in Configs
         /\ d = 0 /\ opi = 0 /\ fix = 0
         /\ nread = 0 /\ delivered = <<>> /\ aret = -1
         /\ freed = {} /\ stale = FALSE
+        /\ spur = 0
         /\ act = [op |-> "init", arg |-> cfg.name]
 
 (* ------------------------------------------------------------------ *)
 Ready(t, l) == pc[t] = l /\ blk[t] = ""
 Goto(t, l) == pc' = [pc EXCEPT ![t] = l]
-Step(t) == act' = [op |-> t, arg |-> 0] /\ UNCHANGED cfg
+Step(t) == act' = [op |-> t, arg |-> 0] /\ UNCHANGED <<cfg, spur>>
 (* the acting thread leaves a critical section having notified the condition variables cvs, and is
    afterwards parked on selfcv ("" = not parked) *)
 Sync(self, cvs, selfcv) ==
@@ -368,7 +370,15 @@ C_SetEnd == /\ Ready("C", "setend") /\ Step("C")
 
 CNext == C_Start \/ C_Load \/ C_Put \/ C_ClrExc \/ C_ClrBad \/ C_Tellp \/ C_SetEnd
 
-Next == ANext \/ UNext \/ CNext
+(* a condition variable may wake a waiter without any notify; the waiter re-evaluates its predicate *)
+Spurious == \E t \in Threads :
+              /\ spur < cfg.spur /\ blk[t] # ""
+              /\ blk' = [blk EXCEPT ![t] = ""] /\ wk' = wk \cup {t}
+              /\ spur' = spur + 1
+              /\ act' = [op |-> "spur", arg |-> t]
+              /\ UNCHANGED <<cfg, uf, oq, uRun, cRun, cfOpen, cfBad, ci, cur, ctmp, utmp, objCount, uncSize, pc, tmp4, d, opi, fix, nread, delivered, aret, freed, stale>>
+
+Next == ANext \/ UNext \/ CNext \/ Spurious
 Spec == Init /\ [][Next]_vars
 FairSpec == Spec /\ WF_vars(ANext) /\ WF_vars(UNext) /\ WF_vars(CNext)
 
